@@ -307,13 +307,15 @@ class Sp3dParser(ChainParser):
         self.data.setdefault("sat_clock_bias", list()).append(
             float(line["clk_bias"]) * Unit.microsecond2second * constant.c
         )
+        # The accuracy codes are exponents: the standard deviation is base**code in millimeter (position) or
+        # picosecond (clock), with the bases given in the %f header line
         self.data.setdefault("sat_pos_sigma", list()).append(
-            np.array([float(line["sig_pos_x"]), float(line["sig_pos_y"]), float(line["sig_pos_z"])])
-            * self.meta["base_posvel"]
+            self.meta["base_posvel"]
+            ** np.array([float(line["sig_pos_x"]), float(line["sig_pos_y"]), float(line["sig_pos_z"])])
             * Unit.millimeter2meter
         )
         self.data.setdefault("sat_clock_bias_sigma", list()).append(
-            float(line["sig_clk_bias"]) * self.meta["base_clkrate"] * Unit.picosecond2second * constant.c
+            self.meta["base_clkrate"] ** float(line["sig_clk_bias"]) * Unit.picosecond2second * constant.c
         )
 
         # Get GNSS identifier
